@@ -92,7 +92,7 @@ def run_history(case):
 
 def emitted(pv):
     """{name: sorted trace ids}"""
-    return {S.un(n): sorted({S.un(j[0][4]) for j in jobs if j}) for n, jobs in pv.items()}
+    return {S.un_name(n): sorted({S.un(j[0][4]) for j in jobs if j}) for n, jobs in pv.items()}
 
 
 def oracle(case, res):
